@@ -50,6 +50,10 @@ def gen_case(seed, tier, index=0):
     content = FOREIGN[style] if start == "foreign" else A.body(style, start)
     tnames = set()
     steps = []
+    extras = []
+    if rng.chance(0.4):
+        # further files named in the same invocations: the tool iterates a set of paths (hash-seed order)
+        extras = rng.sample(["zz/data.json", "zz/other.py", "zz/logo.png", "zz/notes.txt"], rng.randint(1, 2))
     t = datetime.datetime(rng.pick([2019, 2023, 2024]), rng.randint(1, 12), rng.randint(1, 28), 12, 0, 0)
     for _ in range(rng.randint(2, 8)):
         opts = {"holders": rng.sample(A.SAFE_HOLDERS[:5], rng.randint(0, 2)), "licenses": rng.sample(A.LICENSES, rng.randint(0, 2))}
@@ -94,12 +98,24 @@ def gen_case(seed, tier, index=0):
         if dot_license:
             opts["force_dot_license"] = True
             opts.pop("multi_line", None)
-        steps.append({"argv": ["--no-multiprocessing"] + A.argv_of(opts, [name]), "clock": t.isoformat(timespec="seconds"),
-                      "opts": opts, "observe": [{"kind": "reuse_info", "path": name + ".license" if dot_license else name}]})
+        named = [name] + [e for e in extras if rng.chance(0.7)]
+        if opts.get("style"):
+            # an unrecognised type would get an in-file header under --style and a .license under --fallback-dot-license;
+            # histories that switch between the two are outside the statement, so such a file is only named without --style
+            named = [x for x in named if not x.endswith(".txt")]
+        rng.shuffle(named)
+        if any(e.endswith(".txt") for e in named) and not opts.get("style") and not dot_license:
+            opts["fallback_dot_license"] = True
+        steps.append({"argv": ["--no-multiprocessing"] + A.argv_of(opts, named), "clock": t.isoformat(timespec="seconds"),
+                      "opts": opts, "named": named,
+                      "observe": [{"kind": "reuse_info", "path": p} for n in [name] + extras for p in (n, n + ".license")]})
         t += datetime.timedelta(seconds=rng.pick([1, 30, 3600, 86400 * 20, 86400 * 200, 86400 * 400, 86400 * 800]))
     files = [{"path": name, "content": content}] + A.template_files(sorted(tnames))
-    steps = [{"argv": ["--version"], "observe": [{"kind": "reuse_info", "path": name}]}] + steps
-    return {"prop": PROP, "seed": seed, "world": {"files": files}, "style": style, "name": name, "dot_license": dot_license,
+    for e in extras:
+        files.append({"path": e, "content": {"zz/data.json": "{}\n", "zz/other.py": "import sys\n", "zz/logo.png": "\x89PNG\x00\x00\udcff",
+                                             "zz/notes.txt": "notes\n"}[e]})
+    steps = [{"argv": ["--version"], "observe": [{"kind": "reuse_info", "path": p} for n in [name] + extras for p in (n, n + ".license")]}] + steps
+    return {"prop": PROP, "seed": seed, "world": {"files": files}, "style": style, "name": name, "names": [name] + extras, "dot_license": dot_license,
             "variants": [{"hashseed": rng.randrange(8), "steps": steps}]}
 
 
@@ -115,80 +131,110 @@ def _holders(lines):
     return out, rest
 
 
+def _declared(obs_pair):
+    """What the linter would read: the .license sibling when it exists, else the file."""
+    f, lic = obs_pair
+    if lic is not None and lic.get("error") != "FileNotFoundError":
+        return lic
+    return f
+
+
 def oracle(case, results):
     vs = []
-    name = case["name"]
-    target = name + ".license" if case["dot_license"] else name
+    names = case.get("names") or [case["name"]]
     steps = case["variants"][0]["steps"]
     recs = results[0]["records"]
     if not recs or not recs[0].get("obs"):
         return vs
-    D = recs[0]["obs"][0] if not case["dot_license"] else {"copyrights": [], "licenses": [], "contributors": []}
-    if "error" in D:
-        D = {"copyrights": [], "licenses": [], "contributors": []}
-    tag = case["style"]
+    empty = {"copyrights": [], "licenses": [], "contributors": []}
+
+    def view(rec):
+        obs = rec.get("obs") or []
+        out = {}
+        for i, n in enumerate(names):
+            pair = (obs[2 * i] if len(obs) > 2 * i else None, obs[2 * i + 1] if len(obs) > 2 * i + 1 else None)
+            if case["dot_license"]:
+                # a history that works on the .license sibling throughout: the file's own header is not its subject
+                lic = pair[1]
+                out[n] = dict(empty) if (lic is None or lic.get("error") == "FileNotFoundError") else lic
+            else:
+                out[n] = _declared(pair)
+        return out
+
+    D = {n: (v if v and "error" not in v else dict(empty)) for n, v in view(recs[0]).items()}
     for k in range(1, len(steps)):
         if k >= len(recs):
             break
         st, rec = steps[k], recs[k]
         opts = st["opts"]
+        named = st.get("named") or [case["name"]]
         if rec.get("exc"):
             vs.append({"sig": f"C09/crashed/{rec['exc']['type']}@{rec['exc']['where']}", "detail": f"step {k} argv={st['argv']}\n{rec['exc']['tb'][-500:]}"})
             return vs
-        d = (rec.get("diff") or {}).get(target)
-        changed = d is not None and (d.get("before") != d.get("after"))
-        obs = (rec.get("obs") or [{}])[0]
         code = rec.get("exit")
-        if code != 0:
-            # what a failed step may leave behind is C11's subject; here the model simply does not advance
+        now = view(rec)
+        if code == 2:
             continue
-        if "Skipped" in rec.get("stdout", ""):
-            if changed:
-                vs.append({"sig": "C09/skipped-step-changed-file", "detail": f"step {k} argv={st['argv']}"})
-            continue
-        if "error" in obs:
-            vs.append({"sig": f"C09/unreadable-after-success/{obs['error']}", "detail": f"step {k} argv={st['argv']} content={(d or {}).get('content', '')!r:.500}"})
-            return vs
         req = A.requested(opts, st["clock"])
         tmpl = opts.get("template")
         renders_contrib = tmpl is None or A.TEMPLATES[tmpl][2]
         tclass = f"template-{tmpl}" if tmpl in ("nolicence", "nocopyright", "nothing") else "x"
-        want_l = set(D["licenses"]) | set(req["licenses"])
-        lost_l = sorted(want_l - set(obs["licenses"]))
-        if lost_l:
-            which = "requested" if set(lost_l) & set(req["licenses"]) else "previously-declared"
-            vs.append({"sig": f"C09/licence-lost/{which}/{tclass}",
-                       "detail": f"step {k} argv={st['argv']}: exit 0 but licences {lost_l} are not declared afterwards (before: {D['licenses']}, after: {obs['licenses']})\n{(d or {}).get('content', '')!r:.600}"})
-        if renders_contrib:
-            lost_c = sorted((set(D["contributors"]) | set(req["contributors"])) - set(obs["contributors"]))
-            if lost_c:
-                vs.append({"sig": f"C09/contributor-lost/{tclass}", "detail": f"step {k} argv={st['argv']}: {lost_c} (before {D['contributors']}, after {obs['contributors']})"})
-        want_c = set(D["copyrights"]) | set(req["copyrights"])
-        if not opts.get("merge_copyrights"):
-            lost = sorted(want_c - set(obs["copyrights"]))
-            if lost:
-                which = "requested" if set(lost) & set(req["copyrights"]) else "previously-declared"
-                vs.append({"sig": f"C09/copyright-lost/{which}/{tclass}",
-                           "detail": f"step {k} argv={st['argv']}: exit 0 but {lost} not declared afterwards (after: {obs['copyrights']})\n{(d or {}).get('content', '')!r:.600}"})
-        else:
-            hw, rest_w = _holders(want_c)
-            ho, rest_o = _holders(obs["copyrights"])
-            # lines the small parser cannot read are left out of the comparison rather than guessed
-            for holder, items in sorted(hw.items()):
-                if holder not in ho:
-                    vs.append({"sig": f"C09/merge/holder-lost/{tclass}", "detail": f"step {k} argv={st['argv']}: holder {holder!r} gone (after: {obs['copyrights']})"})
-                    continue
-                # no year stated before may be lost: each must lie inside the range of some line of that holder
-                # (several header blocks - e.g. after --style changes - may each keep their own line)
-                years = sorted({y for _, ys, _ in items for y in ys})
-                lost_years = [y for y in years if not any(ys and min(ys) <= y <= max(ys) for _, ys, _ in ho[holder])]
-                if lost_years:
-                    vs.append({"sig": f"C09/merge/year-lost/{tclass}",
-                               "detail": f"step {k} argv={st['argv']}: holder {holder!r} had years {years}, now {[ys for _, ys, _ in ho[holder]]}"})
-            lost_rest = sorted(rest_w - set(obs["copyrights"]))
-            if lost_rest:
-                vs.append({"sig": f"C09/merge/unparsed-line-lost/{tclass}", "detail": f"step {k} argv={st['argv']}: {lost_rest}"})
-        D = obs
+        out = rec.get("stdout", "")
+        for n in names:
+            obs = now.get(n)
+            if obs is None:
+                continue
+            # per file: did this step annotate it successfully?
+            ok_line = any(l.startswith("Successfully changed header of") and (l.rstrip().endswith(n) or l.rstrip().endswith(n + ".license")) for l in out.splitlines())
+            if n not in named or not ok_line:
+                # not named, skipped or failed for this file: what the file declares must at least not shrink
+                if "error" not in obs and n in named is False:
+                    pass
+                if "error" not in obs:
+                    lost = sorted((set(D[n]["licenses"]) - set(obs["licenses"])) | (set(D[n]["copyrights"]) - set(obs["copyrights"])))
+                    if lost and n not in named:
+                        vs.append({"sig": "C09/unnamed-file-lost-information", "detail": f"step {k} argv={st['argv']}: {n} lost {lost}"})
+                    elif lost and not opts.get("merge_copyrights"):
+                        vs.append({"sig": f"C09/information-lost-without-success/{tclass}", "detail": f"step {k} argv={st['argv']}: {n} lost {lost}; stdout={out[-300:]}"})
+                    D[n] = obs
+                continue
+            if "error" in obs:
+                vs.append({"sig": f"C09/unreadable-after-success/{obs['error']}", "detail": f"step {k} argv={st['argv']} file={n}"})
+                return vs
+            many = "/multi-file" if len(named) > 1 else ""
+            want_l = set(D[n]["licenses"]) | set(req["licenses"])
+            lost_l = sorted(want_l - set(obs["licenses"]))
+            if lost_l:
+                which = "requested" if set(lost_l) & set(req["licenses"]) else "previously-declared"
+                vs.append({"sig": f"C09/licence-lost/{which}/{tclass}{many}",
+                           "detail": f"step {k} argv={st['argv']}: exit {code} and 'Successfully changed' for {n}, but licences {lost_l} are not declared afterwards (before: {D[n]['licenses']}, after: {obs['licenses']})"})
+            if renders_contrib:
+                lost_c = sorted((set(D[n]["contributors"]) | set(req["contributors"])) - set(obs["contributors"]))
+                if lost_c:
+                    vs.append({"sig": f"C09/contributor-lost/{tclass}{many}", "detail": f"step {k} argv={st['argv']}: {n}: {lost_c} (before {D[n]['contributors']}, after {obs['contributors']})"})
+            want_c = set(D[n]["copyrights"]) | set(req["copyrights"])
+            if not opts.get("merge_copyrights"):
+                lost = sorted(want_c - set(obs["copyrights"]))
+                if lost:
+                    which = "requested" if set(lost) & set(req["copyrights"]) else "previously-declared"
+                    vs.append({"sig": f"C09/copyright-lost/{which}/{tclass}{many}",
+                               "detail": f"step {k} argv={st['argv']}: {n}: {lost} not declared afterwards (after: {obs['copyrights']})"})
+            else:
+                hw, rest_w = _holders(want_c)
+                ho, rest_o = _holders(obs["copyrights"])
+                for holder, items in sorted(hw.items()):
+                    if holder not in ho:
+                        vs.append({"sig": f"C09/merge/holder-lost/{tclass}", "detail": f"step {k} argv={st['argv']}: {n}: holder {holder!r} gone (after: {obs['copyrights']})"})
+                        continue
+                    years = sorted({y for _, ys, _ in items for y in ys})
+                    lost_years = [y for y in years if not any(ys and min(ys) <= y <= max(ys) for _, ys, _ in ho[holder])]
+                    if lost_years:
+                        vs.append({"sig": f"C09/merge/year-lost/{tclass}",
+                                   "detail": f"step {k} argv={st['argv']}: {n}: holder {holder!r} had years {years}, now {[ys for _, ys, _ in ho[holder]]}"})
+                lost_rest = sorted(rest_w - set(obs["copyrights"]))
+                if lost_rest:
+                    vs.append({"sig": f"C09/merge/unparsed-line-lost/{tclass}", "detail": f"step {k} argv={st['argv']}: {n}: {lost_rest}"})
+            D[n] = obs
     return vs
 
 
